@@ -1967,7 +1967,30 @@ def p_instanceDeclaration(p):
                                     "containing the MOF of an instance: {3!r}",
                                     cname, embedded_object_type, pname, pv),
                                 parser_token=p)
-                    objs = p.parser.mofcomp.compile_embedded_value(pval, ns)
+                    try:
+                        objs = p.parser.mofcomp.compile_embedded_value(
+                            pval, ns)
+                    except MOFCompileError as exc:
+                        # The position in the exception is relative to the
+                        # MOF string in the property value. Raise the same
+                        # kind of exception with the position of the instance
+                        # in the MOF that is compiled.
+                        kwargs = {}
+                        if isinstance(exc, MOFRepositoryError):
+                            kwargs['cim_error'] = exc.cim_error
+                        pos = ""
+                        if exc.lineno is not None:
+                            pos = _format(" at line {0}, column {1}",
+                                          exc.lineno, exc.column)
+                        raise type(exc)(
+                            msg=_format(
+                                "Cannot compile instance of {0!A} because "
+                                "the MOF string specified as value of its "
+                                "embedded {1} property {2!A} cannot be "
+                                "compiled{3}: {4}",
+                                cname, embedded_object_type, pname, pos,
+                                exc.msg),
+                            parser_token=p, **kwargs)
                     for obj in objs:
                         if not isinstance(inst, allowed_types):
                             cls_names = ", ".join([cl.__name__ for cl
